@@ -200,3 +200,27 @@ def t8(ctx):
 
 
 RULES.append(t8)
+
+
+@rule("T9", doc="after a shrink the leader union starts over from the canonicalising entry: handles computed before the shrink are not used again")
+def t9(ctx):
+    crate = ctx.lib()
+    sw = set(C.slot_writers(crate))
+    n = 0
+    for lid in C.need("leader union", C.leader_union_functions(crate)):
+        b = crate.bodies[lid]
+        for c in C.calls_to(crate, b, sw):
+            if c.body is not b:
+                continue
+            n += 1
+            after = b.reach(b.after(c.bb))
+            direct = [x for x in b.calls if x.bb in after and x.callee and x.callee.target == lid and not b.blocks[x.bb]["cleanup"]]
+            merges = [x for x in b.calls if x.bb in after and x.callee and x.callee.target in set(C.merge_region(crate)["entries"]) and not b.blocks[x.bb]["cleanup"]]
+            ctx.check(not direct and not merges, "retry-canonicalises:%d" % n,
+                      "after shrinking an operand %s continues only through a callee that looks both operands up again" % C.short(lid),
+                      "after shrinking an operand %s continues with %s directly: the shrink runs a nested union / rebuild (it may shrink the class below `cap`, re-assert symmetries, merge classes), so the operands held in locals are stale handles — the merge then overwrites the union-find entry that recorded the redundancy and an equality established earlier stops holding" % (
+                          C.short(lid), ((direct + merges)[0].callee.name if (direct + merges) else "?")), where_of(b, c.bb))
+    ctx.floor("shrink calls in the leader union", n, 2)
+
+
+RULES.append(t9)
